@@ -148,12 +148,76 @@ def import_graphs(tier):
   return out
 
 
+def _cli_job(i):
+  from vlib import cli
+  c = CASES[i]
+  base = tempfile.mkdtemp(prefix='verif_c12c_')
+  try:
+    for rel, text in c['files'].items():
+      path = os.path.join(base, rel)
+      os.makedirs(os.path.dirname(path), exist_ok=True)
+      open(path, 'w').write(text)
+    roots = [c['roots']] if isinstance(c['roots'], str) else list(c['roots'])
+    env = {'LOGICAPATH': ':'.join(os.path.join(base, r) for r in roots)}
+    n = 0
+    if c.get('error'):
+      pred = 'Q'
+      rc, out, err = cli.run(E + c['main'], 'run_to_csv', pred, env=env)
+      n += 1
+      if rc == 0:
+        return n, 'logica.py accepted the program (exit 0), a parsing error containing %r is expected' % c['error']
+      if 'Traceback' in err:
+        return n, 'logica.py ended with a traceback instead of a diagnostic: %s' % err[-200:]
+      return n, None
+    for p_, want in c['expect'].items():
+      rc, out, err = cli.run(E + c['main'], 'run_to_csv', p_, env=env)
+      n += 1
+      if rc != 0:
+        return n, 'logica.py exited with %d on predicate %s: %s' % (rc, p_, (err or out)[-200:])
+      rows = cli.csv_rows(out)
+      if R.canon([tuple(str(v) for v in r) for r in rows]) != R.canon([tuple(str(v) for v in r) for r in want]):
+        return n, 'predicate %s through logica.py with LOGICAPATH: rows %r, the flattened program gives %r' % (p_, sorted(rows), sorted(want))
+    return n, None
+  finally:
+    shutil.rmtree(base, ignore_errors=True)
+
+
+def cli_graphs(tier):
+  """The import graphs through the command line tool: import roots come from LOGICAPATH (logica.GetImportRoot)."""
+  import multiprocessing
+  out = {'name': 'C12-import-graphs-cli', 'evaluations': 0, 'distinct_nontrivial': 0, 'violations': [], 'samples': [],
+         'rule': 'the same import graphs run by `logica.py main.l run_to_csv <pred>` in a subprocess with the import '
+                 'root(s) given through LOGICAPATH (one root, and two roots separated by a colon): same rows; rejected '
+                 'programs end with a non-zero exit code and no traceback'}
+  idx = list(range(len(CASES))) if tier == 'thorough' else \
+      [i for i, c in enumerate(CASES) if c['name'] in ('chain3', 'two_roots_first_wins', 'same_base_name_depth2', 'circular',
+                                                        'same_base_name_one_imports_other', 'alias')]
+  with multiprocessing.get_context('fork').Pool(min(16, len(idx))) as pool:
+    rs = pool.map(_cli_job, idx)
+  for i, (n, msg) in zip(idx, rs):
+    c = CASES[i]
+    out['evaluations'] += n
+    out['distinct_nontrivial'] += n
+    if msg:
+      out['violations'].append({'key': 'C12-import-graphs-cli/%s' % c['name'],
+                                'replay': {'obligation': 'C12-import-graphs-cli/%s' % c['name'],
+                                           'clause': 'rows through logica.py + LOGICAPATH == rows of the flattened program',
+                                           'solver': 'bounded back end (logica.py in a subprocess)',
+                                           'input': {'files': c['files'], 'main': c['main'], 'roots': c['roots']},
+                                           'native': {'case': {'files': c['files'], 'main': c['main']}, 'detail': msg,
+                                                      'clause': 'import graph through the command line'},
+                                           'prop_replay': {'kind': 'import', 'case': c['name']}}})
+  out['samples'].append({'case': CASES[idx[0]]['name'], 'LOGICAPATH': '<scratch>/' + str(CASES[idx[0]]['roots'])})
+  return out
+
+
 def run(tier, seed):
-  return [import_graphs(tier)]
+  return [import_graphs(tier), cli_graphs(tier)]
 
 
 def replay(spec):
   o = import_graphs('quick')
-  bad = [v for v in o['violations'] if v['key'].endswith('/' + spec.get('case', ''))]
+  o2 = cli_graphs('thorough')
+  bad = [v for v in o['violations'] + o2['violations'] if v['key'].endswith('/' + spec.get('case', ''))]
   print('             ', [v['replay']['native']['detail'] for v in bad] or 'holds')
   return not bad
